@@ -4,15 +4,19 @@ The same closed curve is declared twice: with nfp = K on nphi points per field p
 K/k = 1) with the harmonics interleaved with zeros on k*nphi points.
 
  * k odd: the two toroidal grids coincide point for point, the trigonometric interpolants and hence the pseudospectral
-   derivatives coincide, so the two objects solve THE SAME discrete problem: every scalar agrees (relative 1e-8), every
-   profile of the coarse-nfp object is the k-fold repetition of the fine-nfp one (phi, varphi: plus the field-period
-   offsets), helicity multiplies by k, iota / iotaN / N_helicity are unchanged, the differentiation matrices act identically
-   on k-fold periodic data, the periodic splines and B_mag agree at random angles on the whole torus (both angle conventions).
- * k even: k*nphi is even and is promoted to k*nphi+1, the grids do not coincide; the two objects are then two
-   discretisations at (almost) matched resolution and are compared with a tolerance derived from the measured relative size of
-   the last Fourier coefficients of the profiles involved (skipped and counted as 'unresolved' when that is > 1e-6).
+   derivatives coincide, so the two objects solve THE SAME discrete problem: every scalar agrees (relative 1e-8 when the measured
+   spectral tail of the solved profiles is <= 1e-2, else 1e-6: badly resolved systems are badly conditioned), every profile of the
+   coarse-nfp object is the k-fold repetition of the fine-nfp one (phi, varphi: plus the field-period offsets), helicity multiplies
+   by k, iota / iotaN / N_helicity are unchanged, the differentiation matrices act identically on k-fold periodic data, the
+   periodic splines and B_mag agree at random angles on the whole torus (both angle conventions).  Up to two isolated branch flips
+   of the (discontinuous) quartic root selection behind r_singularity_vs_varphi are tolerated and counted.
+ * k even: k*nphi is even and is promoted to k*nphi+1, the grids do not coincide; the two objects are then two discretisations at
+   (almost) matched resolution: outputs are compared with max(1e-8, 100 * tail), `tail` being the measured relative size of the last
+   Fourier coefficients of the profiles the output is computed from (not asserted, counted as 'unresolved', when tail > 1e-6);
+   extrema over grid points with the grid-offset allowance 100/nphi^2 (r_singularity: also 1.5/nphi), iota2 with 50/nphi^2, splines
+   and B_mag with the cubic-spline allowance (2 pi/nphi)^4.
  * history: an existing object re-declared in place (change_nfourier / direct assignment of nfp (and nphi) / set_dofs, which
-   calls calculate()) must be indistinguishable from a fresh object.
+   calls calculate()) must be indistinguishable (1e-11) from a fresh object.
 """
 import os, sys
 for _v in ('OPENBLAS_NUM_THREADS', 'OMP_NUM_THREADS', 'MKL_NUM_THREADS'):
@@ -68,6 +72,46 @@ def spec_tail(y):
     if s[1:].max() <= 1e-13 * top:
         return 0.0
     return float(s[-3:].max() / s[1:].max())
+
+
+# extrema located on the trigonometric interpolant by util.fourier_minimum: output -> (profile, +1 maximum / -1 minimum)
+EXTREMA = dict(min_R0=('R0', -1), min_L_grad_B=('L_grad_B', -1), max_elongation=('elongation', 1))
+_cache = {}
+
+
+def _dense(q, name):
+    key = (id(q), name)
+    if key not in _cache:
+        prof, sign = EXTREMA[name]
+        y = sign * np.asarray(getattr(q, prof), dtype=float)
+        per = TWO_PI / q.nfp
+        xd = np.arange(4096) * (per / 4096)
+        f = trig_eval(y, xd, per)
+        loc = np.where((f >= np.roll(f, 1)) & (f > np.roll(f, -1)))[0]
+        tops = np.sort(f[loc])[::-1]
+        rivals = tops[tops < tops[0] - 1e-9 * float(np.max(np.abs(f)))]          # equal values: symmetric partners, either one will do
+        gap = float(tops[0] - rivals[0]) if len(rivals) else float('inf')
+        _cache[key] = (gap, float(np.max(np.abs(fft_derivative(y, per, 2)))))
+    return _cache[key]
+
+
+def extremum_gap(q, name):
+    """difference between the best and the second best local extremum of the (finest) trigonometric interpolant"""
+    return _dense(q, name)[0]
+
+
+def extremum_curv(q, name):
+    return _dense(q, name)[1]
+
+
+def fft_derivative(y, period, order=1):
+    y = np.asarray(y, dtype=float)
+    N = len(y)
+    k = np.fft.rfftfreq(N, d=1.0 / N) * (TWO_PI / period)
+    c = np.fft.rfft(y) * (1j * k) ** order
+    if N % 2 == 0 and order % 2 == 1:
+        c[-1] = 0
+    return np.fft.irfft(c, N)
 
 
 def replicated(cfg, k, nphi=None):
@@ -234,6 +278,7 @@ def resolution(q):
 def compare_matched(qk, q1, k, rng, bad, tag, stats):
     """k even: non-coinciding grids of (almost) equal resolution; every tolerance follows a measured spectral tail"""
     n = 0
+    _cache.clear()
     t1, t2 = (max(u, v) for u, v in zip(resolution(qk), resolution(q1)))
     nk = qk.nphi
     n += 1
@@ -251,6 +296,11 @@ def compare_matched(qk, q1, k, rng, bad, tag, stats):
         if t > 1e-6:
             skip(); continue
         tol = max(1e-8, 100 * t)
+        if name in EXTREMA and extremum_gap(q1, name) <= 2.5 * (TWO_PI / qk.nfp / nk) ** 2 / 8 * extremum_curv(q1, name):
+            # fourier_minimum refines the extremum next to the discrete arg-extremum only: two competing local extrema closer in value than
+            # the sampling error of the grid can be told apart differently by two different grids
+            stats['ambiguous_extremum'] = stats.get('ambiguous_extremum', 0) + 1
+            continue
         a, b = float(getattr(qk, name)), float(getattr(q1, name))
         n += 1
         ok, e = close(a, b, tol, 1e-13)
@@ -299,7 +349,6 @@ def dofs_of(cfg, nfourier):
 def history(cfg, c1, q1, bad, tag):
     """re-declare an existing nfp=K object in place as the nfp=K/k declaration c1; compare with the fresh object q1"""
     n = 0
-    qsc = import_qsc()
     for variant in ('nfp', 'nfp+nphi'):
         start = dict(cfg)
         if variant == 'nfp':
@@ -372,6 +421,18 @@ def predict(cfg, rng, q=None, thorough=False, sub=None, stats=None):
             n += compare_matrices(q, q1, k, r2, bad, tag)
             n += compare_splines(q, q1, r2, bad, tag, tol=1e-9 if resolved else 1e-6)
             n += compare_Bmag(q, q1, r2, bad, tag, tol=1e-8 if resolved else 1e-6)
+            if thorough and not resolved and q.nphi <= 61:
+                # once more at twice the resolution, where the 1e-8 clause is more likely to apply
+                cf = dict(cfg, nphi=2 * q.nphi + 1)
+                try:
+                    qa, _ = build(cf, shear=True); qb, _ = build(replicated(cf, k), shear=True)
+                except Exception as e:
+                    bad(tag + ':build', 'building at nphi=%d fails: %r' % (cf['nphi'], e)); n += 1
+                    continue
+                res2 = resolution(qa)[1] <= 1e-2
+                stats['exact_fine' if res2 else 'exact_fine_unresolved'] = stats.get('exact_fine' if res2 else 'exact_fine_unresolved', 0) + 1
+                sub_bad = lambda key, what, **kw: bad(key, what + ' [at nphi=%d]' % cf['nphi'], nphi=cf['nphi'], **kw)
+                n += compare_exact(qa, qb, k, sub_bad, tag, stats, rtol=1e-8 if res2 else 1e-6)
         else:
             stats['matched'] = stats.get('matched', 0) + 1
             m, t2 = compare_matched(q, q1, k, r2, bad, tag, stats)
